@@ -203,6 +203,7 @@ func c07KanjiStr(r *Rng, n int) string {
 }
 
 func runC07(c *Ctx) {
+	c.Rng = c.Rng.Fork() // decorrelate consecutive VERIF_SEEDs (NewRng(s) and NewRng(s+1) are the same stream shifted by one)
 	c.res.Rule = "tables: all 40 versions x 4 levels through the exported getters, all 32 format words and 34 version words (exact and with 1-3 flipped bits) vs the reference; " +
 		"matrices: every (version, level, mask) = 1280 configurations x {random full-length codeword stream through MatrixUtil_buildMatrix (+ 4 penalty values), " +
 		"random full-capacity ISO-8859-1 content through Encoder_encode with QR_VERSION/QR_MASK_PATTERN hints}, all-zero/all-one streams for v in {1,7,40}; " +
@@ -322,6 +323,27 @@ func runC07(c *Ctx) {
 		}
 	}
 
+	// the decoder's copies of the mask predicates: unmasking an all-light 36x36 matrix leaves the mask itself
+	for k := 0; k < 8; k++ {
+		g := Safe(func() string {
+			bm, _ := gozxing.NewSquareBitMatrix(36)
+			decoder.DataMaskValues[k].UnmaskBitMatrix(bm, 36)
+			rows := make([]string, 36)
+			for y := 0; y < 36; y++ {
+				b := make([]byte, 36)
+				for x := 0; x < 36; x++ {
+					b[x] = '0'
+					if bm.Get(x, y) {
+						b[x] = '1'
+					}
+				}
+				rows[y] = string(b)
+			}
+			return strings.Join(rows, "/")
+		})
+		c07Check(c, "mask", "decoder-mask", fmt.Sprintf("c07 maskgrid %d 36", k), g)
+	}
+
 	// ---------- all 1280 configurations ----------
 	type cfg struct{ v, e, k int }
 	var cfgs []cfg
@@ -337,6 +359,10 @@ func runC07(c *Ctx) {
 		ec := c07Levels[g.e]
 		total := c07Version(g.v).GetTotalCodewords()
 		for s := 0; s < nStreams; s++ {
+			if s > 0 && !c.TimeLeft() {
+				c.Note("bm:streams-cut-by-budget")
+				break
+			}
 			// (a) placement, function patterns, format/version information, mask: arbitrary codeword stream
 			cw := make([]byte, total)
 			for j := range cw {
